@@ -12,6 +12,7 @@ import (
 	"fmt"
 	"io"
 	"net/http"
+	"strings"
 
 	"github.com/go-openapi/runtime"
 	"github.com/go-openapi/runtime/client"
@@ -84,6 +85,12 @@ func buildClientRequest(c *Client, host, pathPattern string) (*http.Request, err
 		}
 		if c.FormOther {
 			if err := req.SetFormParam("other", "x"); err != nil {
+				return err
+			}
+		}
+		if c.FormFile {
+			f := runtime.NamedReader("upload.txt", strings.NewReader("access_token=in-the-file\r\n--not-a-boundary\r\n"))
+			if err := req.SetFileParam("upload", f); err != nil {
 				return err
 			}
 		}
